@@ -242,8 +242,9 @@ class ToLinen(linen.Module):
 
   @linen.compact
   def __call__(self, *args, **kwargs):
-    # init codepath
-    if self.is_initializing():
+    # init codepath (the first call only: later calls reuse the module
+    # created by the first one)
+    if self.is_initializing() and not self.has_variable('nnx', 'graphdef'):
       module_kwargs = dict(self.kwargs)
       if not self.skip_rng:
         module_kwargs |= dict(rngs=nnx.Rngs(**linen_rngs_dict(self)))
